@@ -310,6 +310,13 @@ func genSetRequest(rt *rapid.T, v *model.Variant, m *model.Node, o reqOpts, labe
 	ri.TotalOps = len(ri.Req.Update) + len(ri.Req.Replace) + len(ri.Req.Delete)
 	if o.Prefix && ri.TotalOps > 0 && rapid.IntRange(0, 2).Draw(rt, label+".split") > 0 {
 		splitPrefix(rt, ri.Req, label)
+		// a prefix may also carry only a target (and no elements at all)
+		if rapid.IntRange(0, 2).Draw(rt, label+".target") == 0 {
+			if ri.Req.Prefix == nil {
+				ri.Req.Prefix = &gpb.Path{}
+			}
+			ri.Req.Prefix.Target = "dut"
+		}
 	}
 	return ri
 }
